@@ -56,6 +56,9 @@ class insert_left:
             # gone, and nothing else changed
             "P_view_dom": forall(L, lambda k: has(self.fwd, k) == (k == key or (has(old(self.fwd), k) and get(old(self.fwd), k) != value))),
             "P_view_val": forall(L, lambda k: implies(has(self.fwd, k), get(self.fwd, k) == (value if k == key else get(old(self.fwd), k)))),
+            # the same statement read from the backward side (used by clients that look up by value)
+            "P_back_dom": forall(R, lambda v: has(self.bck, v) == (v == value or (has(old(self.bck), v) and get(old(self.bck), v) != key))),
+            "P_back_val": forall(R, lambda v: implies(has(self.bck, v), get(self.bck, v) == (key if v == value else get(old(self.bck), v)))),
         }
 
 
@@ -116,6 +119,8 @@ class delete_left:
             "P_inv": bimap_inv(self),
             "P_view_dom": forall(L, lambda k: has(self.fwd, k) == (has(old(self.fwd), k) and k != key)),
             "P_view_val": forall(L, lambda k: implies(has(self.fwd, k), get(self.fwd, k) == get(old(self.fwd), k))),
+            "P_back_dom": forall(R, lambda v: has(self.bck, v) == (has(old(self.bck), v) and v != get(old(self.fwd), key))),
+            "P_back_val": forall(R, lambda v: implies(has(self.bck, v), get(self.bck, v) == get(old(self.bck), v))),
         }
 
 
@@ -138,6 +143,8 @@ class delete_right:
             "P_inv": bimap_inv(self),
             "P_view_dom": forall(R, lambda r: has(self.bck, r) == (has(old(self.bck), r) and r != key)),
             "P_view_val": forall(R, lambda r: implies(has(self.bck, r), get(self.bck, r) == get(old(self.bck), r))),
+            "P_fwd_dom": forall(L, lambda k: has(self.fwd, k) == (has(old(self.fwd), k) and k != get(old(self.bck), key))),
+            "P_fwd_val": forall(L, lambda k: implies(has(self.fwd, k), get(self.fwd, k) == get(old(self.fwd), k))),
         }
 
 
